@@ -339,6 +339,11 @@ def check_sequence(case, rec: Rec) -> None:
     rec.nontrivial = done >= 2
 
 
+def sample_view(case):
+    return "\n".join(f"--- {rel}\n{P.render(pg, case['today'])[0]}" for rel, pg in case["dir"].items()) + \
+        "\nmoves: " + "; ".join(f"{m['zid']} -> {m['dest']} [{m['marker']}]" for m in case["moves"])
+
+
 def parts(tier):
     quick = tier == "quick"
     return [HypPart(name="move", check=check, strategy=_case,
